@@ -440,6 +440,10 @@ class SimRun(Engine):
                 if op["a"] not in W.actions or any(o not in W.objects for o in op["params"]):
                     continue
                 act = W.actions[op["a"]]
+                # a ground instance of THIS action (a minimised script may have changed the signature or the objects)
+                if len(op["params"]) != len(act.parameters) or any(
+                        not W.objects[o].type.is_subtype(q.type) for o, q in zip(op["params"], act.parameters)):
+                    continue
                 ps = params_nodes(op)
                 if k == "apply":
                     ra_ = call(sim.apply, st, act, ps)
